@@ -2,7 +2,7 @@
 import re
 
 from analysis import (flow_key, Prov, Guards, fmt, fmt_short, walk, roots, short, canon, comparison, callee_matches, must_pass,
-                      const_int_of, writes_into, aliases_of, async_param_names)
+                      const_int_of, writes_into, aliases_of, async_param_names, field_writes)
 from facts import AnchorError, strip_closure
 from harness import Rule, guarded
 from c01 import bool_pass_edges
@@ -599,10 +599,61 @@ def r6(ctx):
     return rule
 
 
+def r7(ctx):
+    """session keys are exactly what a handshake derived: Keys values are built only by the two handshake constructors, moved as a whole
+    (take / replace / swap) and never modified in place"""
+    facts = ctx.facts
+    rule = Rule("C02.R7", "key material is only ever what a handshake derived: constructed in the handshake constructors, moved whole, never modified in place", floor=4,
+                engine="A-who + ADT field writers")
+    KEYS = r"crate::handler::session::Keys"
+    # constructions
+    makers = set()
+    for path, b in facts.bodies.items():
+        for blk in b.blocks:
+            if blk.idx not in b.live_blocks():
+                continue
+            for st_ in blk.stmts:
+                if st_.k == "a" and st_.rv.k == "agg" and st_.rv.j.get("def") == KEYS:
+                    makers.add(strip_closure(path))
+    want = {S + "establish_from_challenge", S + "encrypt_with_header"}
+    rule.check(makers == want, "Keys{..} is constructed only in establish_from_challenge / encrypt_with_header", "keys|constructors",
+               "session keys are constructed in %s" % sorted(makers - want or makers))
+    # field writes
+    for fld in ("encryption_key", "decryption_key"):
+        bad = [(wb, line, fmt_short(e)) for wb, bi, line, kind, e in field_writes(facts, KEYS + "$", fld) if kind == "assign"]
+        rule.check(not bad, "Keys.%s is never assigned after construction" % fld, "keys|field-write|%s" % fld,
+                   "Keys.%s is overwritten in %s" % (fld, [(strip_closure(wb.path).split("::")[-1], v) for wb, _, v in bad]), loc=bad[0][0].loc(bad[0][1]) if bad else None)
+    # mutable access
+    # Option::as_mut only hands the reference on; whoever receives the resulting `&mut Keys` is checked in turn
+    allowed = re.compile(r"(option::Option::take|option::Option::as_mut|mem::replace|mem::swap|mem::take)$")
+    n = 0
+    for path, b in sorted(facts.bodies.items()):
+        if not (path.startswith("crate::") or path.startswith("<crate::")):
+            continue
+        if re.match(r"<crate::handler::session::Keys as (zeroize::|std::ops::Drop|core::ops::Drop|std::cmp::|core::cmp::)", path):
+            continue        # the derived Zeroize / PartialEq impls themselves
+        for bi, t in b.calls():
+            for a in t.args:
+                if a.place is None or not a.place.is_local():
+                    continue
+                ty = b.local_ty(a.place.local)
+                if not re.match(r"^&mut (std::option::Option<)?%s>?$" % KEYS, ty or ""):
+                    continue
+                n += 1
+                nm = short(t.callee() or "")
+                if not allowed.search(nm):
+                    rule.fail("keys|mutated|%s|%s" % (strip_closure(path).split("::")[-1], nm.split("::")[-1]),
+                              "%s hands a mutable reference to session key material to %s: keys must only be moved as a whole (take / replace / swap), never rewritten "
+                              "in place - a wiped or altered key left in the session is a key no handshake produced" % (strip_closure(path), nm), loc=b.loc(t.line))
+    rule.check(n >= 2, "mutable accesses to Keys / Option<Keys> are whole-value moves (%d sites: take, replace)" % n, "keys|mutable-sites",
+               "expected the take / replace sites of the key rotation, found %d" % n)
+    return rule
+
+
 def run(ctx):
     G = lambda l, f, *a: guarded("C02." + l, f, ctx, *a)
     x = G("R1-R3", r1_r3)
     y = G("R2", r2)
     z = G("R4-R5", r4_r5)
-    out = [x[0]] + y + x[1:] + z + G("R6", r6)
+    out = [x[0]] + y + x[1:] + z + G("R6", r6) + G("R7", r7)
     return out
